@@ -13,12 +13,28 @@ ENGINES = [
 NOTES = ("Technique family: static analysis only. Every check re-extracts facts from /repo's working tree (cached by "
          "source hash) and decides rules on MIR/AST/const facts; no repository code is executed. See DESIGN.md.")
 
+AI_TECH = "path-sensitive abstract interpretation of MIR (GF(2)-affine bit provenance over frame-bit atoms, intervals/small sets, exact integer-linear forms; deku reader position model)"
+
 CLAIMS = {
+    "C02": {
+        "engine": "ai",
+        "technique": AI_TECH + "; per-buffer-length exploration of every grammar path",
+        "design_ref": "DESIGN.md §4 C02",
+        "text": "Decides, for every grammar path of Frame::from_bytes on symbolic buffers of several lengths, the acceptance set and variant map of the 5-bit identifier (all 32 ids), that the checksum and every decoded field depend only on the format's 56/112 bits (length selection, trailing bytes inert), that no shorter buffer yields a frame, and that every rejection of a full-length buffer is the DF no-match or a type-31 subtype-0/1 reserved-bit/version gate. Exhaustive over identifier values and grammar paths; payload bits are symbolic.",
+        "note": TRUST,
+    },
+    "C04": {
+        "engine": "ai",
+        "technique": AI_TECH + "; positional layout comparison against Annex 10 header slices; AST format-site rule for the text form",
+        "design_ref": "DESIGN.md §4 C04",
+        "text": "Decides for every grammar path which frame bits each decoded field is made of: header fields tile the Annex 10 slices, the announced address is f[8..32), a trailing address/parity field is the last 24 bits (equivalently every payload variant consumes 56 bits), identifier re-reads restart at the identifier's first bit; plus the structural necessary conditions of the text round trip (three {:02x} bytes in order; radix-16 parse keeping big-endian bytes 1..3). Genuine defects found are listed in known_findings.json by exact key.",
+        "note": TRUST,
+    },
     "C03": {
         "engine": "ai",
         "technique": "const-evaluated table comparison + GF(2) bit-provenance abstract interpretation of the checksum loop",
         "design_ref": "DESIGN.md §4 C03",
-        "text": "Decides structurally that the checksum routine is the table-driven Mode S parity computation: the evaluated 256-entry table equals the generator's remainder table (R1). Further rules (one-byte step matrix, loop/tail shape, checksum window) are added as the interpreter grows; the error-detection clause is a mathematical consequence of the generator and is not machine-checked.",
+        "text": "Decides that Frame.crc is the Mode S syndrome: the evaluated 256-entry table equals the generator's remainder table, and the abstract interpreter derives the checksum on every grammar path as 24 XOR-forms over the frame bits which must equal M(x) mod 0x1FFF409 of the first 56/112 bits (covers byte step, masks, loop bounds, tail XOR, checksum window across id re-reads, length selection). The <=5-bit / <=24-burst detection clause is a mathematical consequence of the generator and is not machine-checked.",
         "note": TRUST,
     },
 }
